@@ -17,7 +17,8 @@ EXPLANATION = (
     "transmitted per-polynomial evaluations reach the decision. R1d: the coefficient that a combination loop extracts per "
     "term is consumed on every path to the next term - in the constant-term arm (moved to the claimed value) as well as "
     "in the polynomial-term arm (scaling the commitment); liveness alone cannot tell the two apart because either arm "
-    "keeps the coefficient live. R9: the trait default ships `evals` in the iteration "
+    "keeps the coefficient live. R5o: a value derived from a term's coefficient is never stored by a map `insert` "
+    "whose replaced entry is discarded (two terms with one key would collapse into the last). R9: the trait default ships `evals` in the iteration "
     "order of one ordered container and re-attaches them by zipping with another; the two containers must be ordered "
     "by the same key type, otherwise two point labels that share a point value shift every later evaluation. "
     "Correctness of the homomorphic combination itself is not decided.")
@@ -60,6 +61,8 @@ def run(rep, ctx, tier):
         if ("FIELD", LCOMB, "terms") in g.fwd:
             R1D.run_values(rep, ctx, a, "R1d", role="coefficients", what="coefficient of an equation term",
                            starts=[("FIELD", LCOMB, "terms")])
+        from ..rules import overwrite as R5O
+        R5O.run(rep, ctx, a, ("FIELD", LCOMB, "terms"), "R5o")
     # R9 on the trait-default pair
     ob = f.find1("open_combinations", in_trait=PC)
     cb = f.find1("check_combinations", in_trait=PC)
